@@ -129,3 +129,34 @@ package dagcbor
 //@        ==> (forall j mathint :: 0 <= j && j < len(entries) ==> entries[j].key == skey(n.val, j) && entries[j].value.val == sval(n.val, j) && entries[j].value != nil)
 //@   loop 1 assigns *tk, sink.pos
 //@   loop 1 invariant 0 - 1 <= rangeindex && rangeindex + 1 <= len(entries) && sink.pos == old(sink.pos) + moff(n.val, rangeindex + 1) && !tk.Tagged
+
+// ---- predicted length (mirror of the size of the canonical encoding) ----
+
+//@ pure func headlen(n mathint) mathint = n < 24 ? 1 : (n < 256 ? 2 : (n < 65536 ? 3 : (n < 4294967296 ? 5 : 9)))
+//@ pure func elen(v datamodel.Val) mathint
+//@ pure func lsum(v datamodel.Val, j mathint) mathint
+//@ pure func msum(v datamodel.Val, j mathint) mathint
+//@ axiom elen_null: forall v datamodel.Val :: datamodel.vkind(v) == datamodel.Kind_Null || datamodel.vkind(v) == datamodel.Kind_Bool ==> elen(v) == 1
+//@ axiom elen_float: forall v datamodel.Val :: datamodel.vkind(v) == datamodel.Kind_Float ==> elen(v) == 9
+//@ axiom elen_int: forall v datamodel.Val :: datamodel.vkind(v) == datamodel.Kind_Int ==> elen(v) == headlen(datamodel.vint(v) >= 0 ? datamodel.vint(v) : 0 - 1 - datamodel.vint(v))
+//@ axiom elen_string: forall v datamodel.Val :: datamodel.vkind(v) == datamodel.Kind_String ==> elen(v) == headlen(len(datamodel.vstr(v))) + len(datamodel.vstr(v))
+//@ axiom elen_bytes: forall v datamodel.Val :: datamodel.vkind(v) == datamodel.Kind_Bytes ==> elen(v) == headlen(len(datamodel.vbytes(v))) + len(datamodel.vbytes(v))
+//@ axiom elen_link: forall v datamodel.Val :: datamodel.vkind(v) == datamodel.Kind_Link ==> elen(v) == 2 + headlen(len(cidbytes(datamodel.vlink(v))) + 1) + len(cidbytes(datamodel.vlink(v))) + 1
+//@ axiom elen_list: forall v datamodel.Val :: datamodel.vkind(v) == datamodel.Kind_List ==> elen(v) == headlen(datamodel.vlen(v)) + lsum(v, datamodel.vlen(v))
+//@ axiom elen_map: forall v datamodel.Val :: datamodel.vkind(v) == datamodel.Kind_Map ==> elen(v) == headlen(datamodel.vlen(v)) + msum(v, datamodel.vlen(v))
+//@ axiom lsum_0: forall v datamodel.Val :: lsum(v, 0) == 0
+//@ axiom lsum_step: forall v datamodel.Val, j mathint :: 0 <= j && j < datamodel.vlen(v) ==> lsum(v, j+1) == lsum(v, j) + elen(datamodel.vchild(v, j))
+//@ axiom msum_0: forall v datamodel.Val :: msum(v, 0) == 0
+//@ axiom msum_step: forall v datamodel.Val, j mathint :: 0 <= j && j < datamodel.vlen(v) ==> msum(v, j+1) == msum(v, j) + elen(datamodel.vkey(v, j)) + elen(datamodel.vchild(v, j))
+//@ axiom elen_pos: forall v datamodel.Val :: elen(v) >= 1
+//@ axiom lsum_mono: forall v datamodel.Val, j mathint :: 0 <= j && j <= datamodel.vlen(v) ==> 0 <= lsum(v, j) && lsum(v, j) <= lsum(v, datamodel.vlen(v))
+//@ axiom msum_mono: forall v datamodel.Val, j mathint :: 0 <= j && j <= datamodel.vlen(v) ==> 0 <= msum(v, j) && msum(v, j) <= msum(v, datamodel.vlen(v))
+
+//@ func EncodedLength(n) (r, err)
+//@   requires n != nil && elen(n.val) <= 4611686018427387904
+//@   assigns nothing
+//@   ensures[C02] err == nil ==> r == elen(n.val)
+//@   ensures[C02] (datamodel.vkind(n.val) == datamodel.Kind_Int && datamodel.vint(n.val) >= 0 && (datamodel.vint(n.val) <= 9223372036854775807 || implements(n, "datamodel.UintNode"))) || datamodel.vkind(n.val) == datamodel.Kind_Null || datamodel.vkind(n.val) == datamodel.Kind_Bool || datamodel.vkind(n.val) == datamodel.Kind_Float || datamodel.vkind(n.val) == datamodel.Kind_String || datamodel.vkind(n.val) == datamodel.Kind_Bytes ==> err == nil
+//@   loop 0 assigns itr.pos
+//@   loop 0 invariant itr != nil && itr.src == n.val && 0 <= itr.pos && itr.pos <= datamodel.vlen(n.val) && length == headlen(datamodel.vlen(n.val)) + msum(n.val, itr.pos)
+//@   loop 1 invariant 0 <= i && i <= nl && nl == datamodel.vlen(n.val) && length == headlen(datamodel.vlen(n.val)) + lsum(n.val, i)
